@@ -29,6 +29,7 @@ Not demanded: rc; anything about lines containing line-break characters or lone 
 the alphabet); what happens to the corrupted entries themselves; where exactly the serializer puts
 a file (only that the loaded provider points at the location the serializer reported).
 """
+import collections
 import hashlib
 import itertools
 import json
@@ -239,6 +240,8 @@ def units(tier, seed):
     us.append({"part": "A", "sub": "many"})
     us.append({"part": "A", "sub": "collide"})
     us.append({"part": "A", "sub": "names"})
+    for shard in range(4):
+        us.append({"part": "A", "sub": "first-of", "shard": shard, "of": 4})
     us.append({"part": "A", "sub": "ascii-locale"})
     for k in range(len(VARIANTS)):
         us.append({"part": "A", "sub": "variant", "index": k})
@@ -332,6 +335,8 @@ def same_args(a, b):
 
 def content_features(spec, orig):
     feats = {"kind": spec["kind"], "save_as": spec.get("save_as", "none"), "elements": len(spec.get("elems", []))}
+    if spec["kind"] == "first_of":
+        feats["alternatives"] = len(spec["alts"])
     toks = [t for el in spec.get("elems", []) for t in el["lines"]]
     feats["long_line"] = "@LONG" in toks
     feats["non_ascii"] = any(any(ord(c) > 127 for c in t) for t in toks)
@@ -363,14 +368,24 @@ def check_entry(spec, orig, doc, present, value, errors_expected):
     """One component after loading. Returns (violations [(clause, expected, observed)], info)."""
     v = []
     info = {"persisted": 0, "loaded": 0, "rels": set(), "errors": 0, "collide": False}
-    if errors_expected:
-        have = doc.get("errors") if isinstance(doc, dict) else None
-        info["errors"] = len(have) if isinstance(have, list) else 0
-        missing = [t for t in errors_expected if not isinstance(have, list) or t not in have]
-        if missing:
-            v.append(("errors:failed-component-errors-not-persisted",
-                      {"tracebacks_ending": [str(t).strip().splitlines()[-1] if t else t for t in missing]},
-                      {"document": "absent" if doc is None else {"errors": [str(t).strip().splitlines()[-1] for t in (have or [])]}}))
+    # exact: the document lists every error the broker holds for the component - those filed while it was evaluated and
+    # those raised while it was written (marshal files them in the broker too) - each as often as the broker has it
+    have = doc.get("errors") if isinstance(doc, dict) else None
+    info["errors"] = len(have) if isinstance(have, list) else 0
+    want = collections.Counter(errors_expected)
+    got = collections.Counter(have if isinstance(have, list) else [])
+    missing = list((want - got).elements())
+    extra = list((got - want).elements())
+    last = lambda t: str(t).strip().splitlines()[-1][:200] if t else t
+    if missing:
+        v.append(("errors:failed-component-errors-not-persisted",
+                  {"recorded_in_broker": [last(t) for t in errors_expected]},
+                  {"document": "absent" if doc is None else {"errors": [last(t) for t in (have or [])]},
+                   "missing": [last(t) for t in missing]}))
+    if extra and doc is not None:
+        v.append(("errors:persisted-errors-not-recorded-or-twice",
+                  {"recorded_in_broker": [last(t) for t in errors_expected]},
+                  {"errors": [last(t) for t in (have or [])], "unexpected": [last(t) for t in extra]}))
     results = doc.get("results") if isinstance(doc, dict) else None
     persisted = results if isinstance(results, list) else ([] if results is None else [results])
     info["persisted"] = len(persisted)
@@ -542,7 +557,7 @@ def check_a(case):
         # why two elements of this spec share a location (measured above from the metadata document)
         f["collision"] = "save-as-directory" if case.get("save_as") == "dir" else (
             "command-mangling" if case["kind"] in ("m_cmd", "m_cmd2", "ccmd") else "other")
-    nontrivial = (info["persisted"] >= 1 and info["loaded"] >= 1) or (case["kind"] == "fail" and info["errors"] >= 1)
+    nontrivial = (info["persisted"] >= 1 and info["loaded"] >= 1) or (case["kind"] in ("fail", "first_of") and info["errors"] >= 1)
     return [(c, x, o, f) for c, x, o in v], bool(nontrivial), "p%d:l%d:e%d" % (min(info["persisted"], 4), min(info["loaded"], 4),
                                                                                 min(info["errors"], 2))
 
@@ -553,6 +568,40 @@ NAME_POOL = ["plain", "café.conf", "caf\udce9.conf", "日本"]
 # "caf\udce9.conf" is how Python hands out the Latin-1 file name b"caf\xe9.conf": not valid UTF-8, a lone surrogate
 # after surrogateescape. It appears as a FILE NAME, a command ARGUMENT and in an exception text - never inside a line.
 ASCII_LOCALE = {"LC_ALL": "C", "LANG": "C", "PYTHONUTF8": "0", "PYTHONCOERCECLOCALE": "0", "PYTHONIOENCODING": "utf-8"}
+
+
+# alternatives of a first_of spec: failing when evaluated (E), failing when written (W), fine (ok)
+ALT_SINGLE = [
+    {"kind": "text", "missing": True, "elems": [{"n": "f", "lines": ["never read"]}]},          # E: file does not exist
+    {"kind": "fail", "exc": "value", "elems": []},                                              # E: datasource raises
+    {"kind": "text", "elems": [{"n": "f", "lines": []}]},                                       # W: empty on a host
+    {"kind": "text", "vanish": True, "elems": [{"n": "f", "lines": ["gone"]}]},                 # W: unreadable by then
+    {"kind": "cmd", "elems": [{"n": "f", "lines": []}]},                                        # W: empty command output
+    {"kind": "cmd", "raises": True, "elems": [{"n": "f", "lines": ["never produced"]}]},        # W: reading it raises
+    {"kind": "text", "elems": [{"n": "f", "lines": ["file ok", ""]}]},                          # ok
+    {"kind": "cmd", "elems": [{"n": "f", "lines": ["cmd ok"]}]},                                # ok
+]
+ALT_MULTI = [
+    {"kind": "m_cmd", "elems": []},                                                             # E: no results found
+    {"kind": "m_cmd", "elems": [{"n": "a", "lines": ["ok a"]}, {"n": "b", "lines": []}]},       # one element W
+    {"kind": "m_cmd", "elems": [{"n": "a", "lines": []}]},                                      # all W
+    {"kind": "m_cmd", "elems": [{"n": "a", "raises": True, "lines": ["x"]}, {"n": "b", "lines": ["ok b", ""]}]},
+    {"kind": "m_cmd", "elems": [{"n": "a", "lines": ["ok"]}]},                                  # ok
+    {"kind": "m_ds", "elems": [{"n": "a", "lines": ["ds ok"]}, {"n": "b", "lines": []}]},       # ok (empty element persisted)
+]
+
+
+def first_of_specs():
+    """Components that fail while they are EVALUATED and while they are WRITTEN: first_of over every sequence of 1..3
+    alternatives (single-output: 8 alternative kinds, multi-output: 6); the failures of the alternatives that come first
+    are filed against the registry point at evaluation, the alternative that supplies the value may fail on write."""
+    out = []
+    for pool in (ALT_SINGLE, ALT_MULTI):
+        for n in range(1, 4):
+            for seq in itertools.product(range(len(pool)), repeat=n):
+                out.append({"part": "A", "kind": "first_of", "save_as": "none",
+                            "alts": [dict(pool[i], save_as="none") for i in seq]})
+    return out
 
 
 def name_specs():
@@ -635,11 +684,13 @@ def replay(case):
 
 
 def _record(res, spec, v, info, confirm_budget):
-    nontrivial = (info["persisted"] >= 1 and info["loaded"] >= 1) or (spec["kind"] == "fail" and info["errors"] >= 1)
+    nontrivial = (info["persisted"] >= 1 and info["loaded"] >= 1) or (spec["kind"] in ("fail", "first_of") and info["errors"] >= 1)
+    if info["errors"] >= 2:
+        res.stat("A_specs_with_two_or_more_persisted_errors")
     rel = "+".join(sorted(r for r in info["rels"] if r)) or "-"
     res.case(nontrivial=nontrivial,
              outcome="A:%s:%s:p%d:l%d:%s:e%d%s" % (spec["kind"], spec.get("save_as", "none"), min(info["persisted"], 4),
-                                                    min(info["loaded"], 4), rel, min(info["errors"], 2),
+                                                    min(info["loaded"], 4), rel, min(info["errors"], 4),
                                                     ":collide" if info["collide"] else ""))
     res.stat("A_results_persisted", info["persisted"])
     res.stat("A_results_loaded", info["loaded"])
@@ -713,6 +764,9 @@ def run_unit(unit, tier):
             run_batches(res, specs)
         elif unit["sub"] == "names":
             specs = name_specs()
+            run_batches(res, specs)
+        elif unit["sub"] == "first-of":
+            specs = list(enumx.shard(first_of_specs(), unit["shard"], unit["of"]))
             run_batches(res, specs)
         elif unit["sub"] == "ascii-locale":
             specs = ascii_specs()
